@@ -164,6 +164,16 @@ fn wellformed(rng: &mut Rng, big: bool) -> Vec<u8> {
         while rng.chance(1, 5) {
             out += *rng.pick(&["\n", "# comment v 1 2 3\n", "   \n", "  # f 9 9 9\n", "#\n", "\t\r\n"]);
         }
+        if rng.chance(1, 150) {
+            // a very long comment whose text reads like items: nothing of it may be taken for one
+            let n = *rng.pick(&[1030usize, 1500, 2050]);
+            let mut c = String::from("# ");
+            while c.len() < n {
+                c += *rng.pick(&["v 9 9 9 ", "f 1 1 1 ", "vn 1 0 0 ", "xyzzy "]);
+            }
+            out += &c;
+            out += "\n";
+        }
         if rng.chance(1, 4) {
             out += ws(rng);
         }
